@@ -61,7 +61,7 @@ CLAIMED['C20'] = dict(
 CLAIMED['C11'] = dict(
     text='Proof per function (modular): window acceptance in SeismicFileConverter.__init__ (0 is a bound), header-array sizing, make_header window words, io_thread_func '
          '(window samples + header capture; symbolic inline block extent), seismic_file_producer (layout agreement for the window shape, hash of the window rows) -- '
-         'all cube shapes and all windows. Glue (run, run_conversion_loop) by data-flow contracts; the CLI is not under contract.',
+         'all cube shapes and all windows. Glue (run, run_conversion_loop) and the sgy2sgz command (options reach the converter unchanged) by data-flow contracts.',
     note='AX-SEGYIO-R handle model; reduce_iops falls back to segyio for windows (fix 7a327a8); composition by modularity')
 CLAIMED['C04'] = dict(
     text='Proof per function of the header chain: capture (io_thread_func[_2d], reduced-I/O bytes), classification (HeaderwordInfo.__init__ list modes exactly; heuristic mode under the '
@@ -80,7 +80,7 @@ CLAIMED['C08'] = dict(
     note='AX-NP-WHERE, AX-SEGYIO-R, LEMMA-RANGE-LEN; found and fixed D9 (increments written to the wrong words)')
 CLAIMED['C06'] = dict(
     text='Proof per function of the exporter up to the segyio boundary: spec = reader axes, format from the stored binary header (IBM/IEEE kept, otherwise IBM with only the format word patched), '
-         'all traces and headers in ordinal order with the decoded samples / regenerated headers, stored 3600-byte SEG-Y file header written verbatim. What segyio writes from that spec is assumed.',
+         'all traces and headers in ordinal order with the decoded samples / regenerated headers, stored 3600-byte SEG-Y file header written verbatim. The sgz2sgy command is under a data-flow contract. What segyio writes from that spec is assumed.',
     note='AX-SEGYIO-W assumed; get_trace per C02 contracts; found and fixed D35 (format word read from the wrong bytes)')
 CLAIMED['C12'] = dict(
     category='exploration',
